@@ -21399,6 +21399,21 @@ impl<
 			}
 		}
 
+		// Verification hook (C10): record the HTLC-level decisions of this read. Read-only.
+		#[cfg(all(feature = "verif_hooks", feature = "std"))]
+		{
+			let mut log = crate::ln::verif_hooks::STARTUP_DECISIONS.lock().unwrap();
+			log.clear();
+			for (src, hash, _, chan_id, reason, _) in failed_htlcs.iter() {
+				let key = crate::ln::verif_hooks::htlc_source_key(src);
+				log.push(format!("fail {} chan={} hash={} reason={:?}", key, chan_id, hash, reason));
+			}
+			for (src, _, _, closed, _, _, chan_id, _) in pending_claims_to_replay.iter() {
+				let key = crate::ln::verif_hooks::htlc_source_key(src);
+				log.push(format!("claim {} downstream={} closed={}", key, chan_id, closed));
+			}
+		}
+
 		for htlc_source in failed_htlcs {
 			let (source, hash, counterparty_id, channel_id, failure_reason, ev_action) =
 				htlc_source;
